@@ -17,7 +17,7 @@ use std::collections::BTreeSet;
 
 pub fn run_case(ctx: &Ctx, case: u64, ev: &mut Ev) {
     let mut rng = Rng::derive(ctx.seed, "C13", case);
-    rng.big = ctx.tier == crate::Tier::Thorough && rng.chance(0.2);
+    rng.big = crate::draw_big(ctx, &mut rng);
     match rng.below(5) {
         0 | 1 => run::<2>(case, &mut rng, ev),
         2 | 3 => run::<3>(case, &mut rng, ev),
